@@ -212,7 +212,27 @@ def runSrc (j : Json) : Except String Json := do
   let seed ← j.getObjValAs? Nat "seed"
   let fuel ← j.getObjValAs? Nat "fuel"
   let pool ← poolOf (← j.getObjVal? "pool")
-  let (st, r) := runProgram FloatSem.sem (envF seed pool) prog fuel 0.0
+  -- optional explicit environment: a table [[number of effects so far, query, [operand values], value], …]; anything else reads 0
+  let table : List (Nat × String × List Float × Float) := match j.getObjVal? "table" with
+    | .ok tj => ((tj.getArr?).toOption.getD #[]).toList.filterMap (fun row => match row.getArr? with
+        | .ok a =>
+          (match (a[0]!).getNat?, (a[1]!).getStr?, (a[2]!).getArr?, floatOfJson (a[3]!) with
+           | .ok n, .ok q, .ok vs, .ok v => (vs.toList.mapM floatOfJson).toOption.map (fun vals => (n, q, vals, v))
+           | _, _, _, _ => none)
+        | .error _ => none)
+    | .error _ => []
+  -- rows grouped by the number of effects so far (look-ups stay short in long runs)
+  let size := table.foldl (fun m (n, _, _, _) => max m (n + 1)) 0
+  let byLen : Array (List (String × List Float × Float)) :=
+    table.foldl (fun (acc : Array (List (String × List Float × Float))) (n, q, vals, v) =>
+      if n < acc.size then acc.modify n (fun l => (q, vals, v) :: l) else acc) (Array.replicate (min size 100000) [])
+  let envT : Env Float := fun trace q vals =>
+    match (byLen.getD trace.length []).find? (fun (q', vals', _) => q' == q && vals'.length == vals.length &&
+        (vals'.zip vals).all (fun (x, y) => floatKey x == floatKey y)) with
+    | some (_, _, v) => v
+    | none => 0.0
+  let env := if table.isEmpty then envF seed pool else envT
+  let (st, r) := runProgram FloatSem.sem env prog fuel 0.0
   pure (Json.mkObj [
     ("trace", Json.arr (st.trace.reverse.map jEff).toArray),
     ("outcome", Json.str (match r with | .ok _ => "done" | .error e => errStr e))])
@@ -269,6 +289,9 @@ def equiv (j : Json) : Except String Json := do
       ("src_len", Json.num (JsonNumber.fromNat ts.length)), ("ic_len", Json.num (JsonNumber.fromNat ti.length)),
       ("common", Json.num (JsonNumber.fromNat cp)),
       ("ic_halted", Json.bool s.halted), ("ic_steps", Json.num (JsonNumber.fromNat n)), ("ic_pc", Json.num (JsonNumber.fromNat s.pc)),
+      -- a non-finite value in a register or stack cell at the end of the run: the program left the compared domain (NaN has no order)
+      ("ic_nonfinite", Json.bool (verdict != "ok" && verdict != "ok-prefix" &&
+        ((List.range 18).any (fun r => !(s.regs r).isFinite) || (List.range 512).any (fun a => !(s.mem a).isFinite)))),
       ("call_violations", Json.arr (m.violations.map Json.str).toArray),
       ("max_depth", Json.num (JsonNumber.fromNat m.maxDepth)),
       ("src_at", match ts[cp]? with | some e => jEff e | none => Json.null),
@@ -559,7 +582,8 @@ def floatCfg : PV.Flatten.Cfg Float :=
 def coreCompare (j : Json) : Except String Json := do
   let prog ← progOfJson (← j.getObjVal? "prog")
   let text ← j.getObjValAs? String "text"
-  match PV.Flatten.flatten floatCfg prog with
+  let inline := (j.getObjValAs? Bool "inline").toOption.getD false
+  match PV.Flatten.flatten floatCfg inline prog with
   | none => pure (Json.mkObj [("verdict", Json.str "outside-core")])
   | some (core, procs, ranks) =>
     -- the executable form of the theorems' hypotheses: `Good` (branch pairs from the real tables, `ra` / `sp` untouched, own-stack
